@@ -9,7 +9,7 @@
   is the list an iterator still has to yield; `Rel E st sp` says that every model object
   denotes the specification object with the same pool index.
 -/
-import ALV.Lemmas.C03Refine
+import ALV.Lemmas.C03Frame
 import ALV.Common.Audit
 
 namespace ALV.Props.C03
@@ -70,6 +70,106 @@ theorem take_none {E : List (List α)} {h : Heap α} {it : It α} (hH : HeapOK E
   have := next_mono_le hf G.run
   cases hd : den E it <;> simp [takeIt, takeMode, this, hd]
 
+/-- **C03.2 independence** an operation leaves every object it does not name exactly as it was:
+a Stream at another pool index still denotes the same remaining sequence, a hub still has the
+same number of uses, each denoting the same sequence — whatever is consumed from its copies,
+tee siblings or the other uses of its thub, in whatever order.  (`Op.touched`: the index the
+method is called on and an object passed as argument; `peek` and `copy` touch nothing.) -/
+theorem independent {E : List (List α)} {st : St α} {sp : SPool α} (R : Rel E st sp) (op : Op α)
+    (hop : op.Fin) :
+    ∃ E' F st' o, (∀ f, F ≤ f → step f st op = some (st', o)) ∧
+      ∀ j, j ∉ op.touched →
+        (∀ it, st.pool[j]? = some (.stream it) →
+          ∃ it', st'.pool[j]? = some (.stream it') ∧ den E' it' = den E it) ∧
+        (∀ uses, st.pool[j]? = some (.hub uses) →
+          ∃ uses', st'.pool[j]? = some (.hub uses') ∧ uses'.length = uses.length ∧
+            ∀ u', u' ∈ uses' → ∀ u, u ∈ uses → den E' u' = den E u) := by
+  obtain ⟨E', F, st', sp', o, S⟩ := ALV.C03.step_refines R op hop
+  refine ⟨E', F, st', o, S.run, fun j hj => ⟨fun it hit => ?_, fun uses huses => ?_⟩⟩
+  · cases R.lookup j with
+    | missing hp hq => rw [hp] at hit; cases hit
+    | dead hp hq => rw [hp] at hit; cases hit
+    | hub us q hp hq ok => rw [hp] at hit; cases hit
+    | stream it0 hp hq ok =>
+      rw [hp] at hit; cases hit
+      have hfr := spec_frame S.spec j hj (getElem?_lt hq)
+      rw [hq] at hfr
+      cases S.rel.lookup j with
+      | missing hp' hq' => rw [hq'] at hfr; cases hfr
+      | dead hp' hq' => rw [hq'] at hfr; cases hfr
+      | hub us q hp' hq' ok' => rw [hq'] at hfr; cases hfr
+      | stream it' hp' hq' ok' =>
+        rw [hq'] at hfr
+        injection hfr with e1; injection e1 with e2; injection e2 with e3
+        exact ⟨it', hp', e3⟩
+  · cases R.lookup j with
+    | missing hp hq => rw [hp] at huses; cases huses
+    | dead hp hq => rw [hp] at huses; cases huses
+    | stream it0 hp hq ok => rw [hp] at huses; cases huses
+    | hub us q hp hq ok =>
+      rw [hp] at huses; cases huses
+      have hfr := spec_frame S.spec j hj (getElem?_lt hq)
+      rw [hq] at hfr
+      cases S.rel.lookup j with
+      | missing hp' hq' => rw [hq'] at hfr; cases hfr
+      | dead hp' hq' => rw [hq'] at hfr; cases hfr
+      | stream it' hp' hq' ok' => rw [hq'] at hfr; cases hfr
+      | hub us' q' hp' hq' ok' =>
+        rw [hq'] at hfr
+        injection hfr with e1; injection e1 with e2 e3
+        refine ⟨us', hp', e3, fun u' hu' u hu => ?_⟩
+        have a := (ok' u' hu').2
+        have b := (ok u hu).2
+        rw [e2, b] at a
+        injection a with e4
+        exact e4.symm
+
+/-- **C03.4c** `peek` removes nothing: no object — the peeked one included — changes its
+denotation (and the value returned is the one `take` would return, by `step_refines`). -/
+theorem peek_pure {E : List (List α)} {st : St α} {sp : SPool α} (R : Rel E st sp) (i : Nat) (c : Cnt) :
+    ∃ E' F st' o, (∀ f, F ≤ f → step f st (.peek i c) = some (st', o)) ∧
+      ∀ (j : Nat) (it : It α), st.pool[j]? = some (Obj.stream it) →
+        ∃ it', st'.pool[j]? = some (Obj.stream it') ∧ den E' it' = den E it := by
+  obtain ⟨E', F, st', o, run, ind⟩ := independent R (.peek i c) trivial
+  exact ⟨E', F, st', o, run, fun j it hit => (ind j (by simp [Op.touched])).1 it hit⟩
+
+theorem specRun_uses (s : LSeq α) : ∀ (k m : Nat) (rest : SPool α),
+    specRun (.hub s m :: rest) (List.replicate k (.new (.obj 0))) =
+      (List.range k).map (fun j => some (if j < m then Obs.new (rest.length + 1 + j) else .err "IndexError")) := by
+  intro k
+  induction k with
+  | zero => intro m rest; rfl
+  | succ k ih =>
+    intro m rest
+    rw [List.range_succ_eq_map, List.replicate_succ]
+    cases m with
+    | zero =>
+      have := ih 0 rest
+      simp [specRun, specStep, specSrc, this]
+    | succ u =>
+      have := ih u (rest ++ [.stream s])
+      simp [specRun, specStep, specSrc, this]
+      intro a _
+      have e : rest.length + 1 + 1 + a = rest.length + 1 + (a + 1) := by omega
+      rw [e]
+
+/-- **C03.3a** a thub hands out exactly `n` uses: of `k` successive `Stream(hub)` requests the
+first `n` produce a new Stream, every later one raises IndexError. -/
+theorem thub_uses (xs : List α) (n k : Nat) :
+    ∃ F, ∀ f, F ≤ f → run f St.empty (.thub (.list xs) n :: List.replicate k (.new (.obj 0))) =
+      some (.new 0) :: (List.range k).map
+        (fun j => some (if j < n then Obs.new (1 + j) else .err "IndexError")) := by
+  obtain ⟨F, h⟩ := run_refines (α := α) (.thub (.list xs) n :: List.replicate k (.new (.obj 0)))
+    (fun op hop => by
+      rcases List.mem_cons.1 hop with rfl | hop
+      · trivial
+      · rw [List.eq_of_mem_replicate hop]; trivial)
+  refine ⟨F, fun f hf => ?_⟩
+  rw [h f hf]
+  have := specRun_uses (⟨xs, []⟩ : LSeq α) k n []
+  simp [specRun, specStep, specSrc, srcSeq] at this ⊢
+  exact this
+
 /-- **C03.3b** `thub` of a non-iterable is that object: nothing is created, the object comes back. -/
 theorem thub_noniter (f : Nat) (st : St α) (v : α) (n : Nat) :
     step f st (.thub (.const v) n) = some (st, .const v) := rfl
@@ -83,6 +183,11 @@ example : specRun ([] : SPool Int)
     [.new (.list [1, 2, 3]), .copy 0, .take 0 (.int 2), .drain 1, .take 0 (.int 5), .take 0 .none]
     = [some (.new 0), some (.new 1), some (.items [1, 2]), some (.items [1, 2, 3]), some (.items [3]),
        some (.err "StopIteration")] := by decide
+/-- a thub with 2 uses, consumed in the "wrong" order, third request fails -/
+example : run 10 (St.empty : St Int)
+    [.thub (.list [4, 5]) 2, .new (.obj 0), .new (.obj 0), .new (.obj 0), .drain 2, .take 1 (.int 1), .drain 1]
+    = [some (.new 0), some (.new 1), some (.new 2), some (.err "IndexError"), some (.items [4, 5]),
+       some (.items [4]), some (.items [5])] := by decide
 example : (Op.new (.list [1, 2, 3]) : Op Int).Fin ∧ (Op.thub (.obj 0) 2 : Op Int).Fin := ⟨trivial, trivial⟩
 /-- the counts: `rint` rounds x.5 away from zero, `round` to even -/
 example : takeMode (.flt (5/2)) = .n 3 ∧ roundHalfEven (5/2) = 2 ∧ roundHalfEven (7/2) = 4
